@@ -1709,7 +1709,11 @@ def la3(m, run):
     B = _symmat('b', 3, 2)
     fl = m.func('linalg.lu_solve')
 
+    # (should lu_solve ever pivot, the pivoting helper is replaced by a 3-cycle: the solution must still satisfy A x = b)
     def fn(sk):
+        cyc = (1, 2, 0)
+        sk.abstracted[('linalg', 'matrix_pivot')] = Py(lambda sk_, node, *a, **k: ([list(A[cyc[i]]) for i in range(3)], [[1.0 if cyc[i] == j else 0.0 for j in range(3)] for i in range(3)]) +
+                                                       ((1.0,) if k.get('sign', a[1] if len(a) > 1 else False) else ()), 'matrix_pivot')
         x = sk.call(fl, [[list(r) for r in A], [list(r) for r in B]], {})
         return _mat_eq(sk, _matmul(sk, A, x), B, 'A x')
     attempt('linalg.lu_solve :: 3 x 3 symbolic matrix, two right-hand sides', 'LA3.lu-kernels-exact', fl, fn, 'A x = b as an identity of rational functions')
@@ -2741,3 +2745,260 @@ def ag52(m, run, rule='AG5.serial-parallel'):
     run.ob(rule, '_voxelize.find_inouts_st / find_inouts_mp :: %d (grid size, processes) cases' % len(cases), not bad,
            'one flag per voxel in voxel order, same predicate arguments in both variants' if not bad else
            '%d voxels, %d processes: %s   [%d of %d cases]' % (bad[0][0][0], bad[0][0][1], bad[0][1], len(bad), len(cases)), 'geomdl/_voxelize.py')
+
+
+# ====================================================================================== C11: fitting parameters and knots exactly
+def fit3(m, run):
+    """FIT3: the parameter and knot constructions of global interpolation / approximation interpreted exactly:
+    compute_knot_vector on symbolic parameters is Eq. 9.8 (internal knot j = mean of u_j .. u_{j+p-1}, j = 1 .. n-p), compute_knot_vector2 is
+    Eqs. 9.68 / 9.69, compute_params_curve with symbolic chord lengths is Eq. 9.5 (Eq. 9.6 with their square roots when centripetal),
+    compute_params_surface averages the per-row and per-column parameters of compute_params_curve and forwards the centripetal flag to
+    every one of them"""
+    from fractions import Fraction
+    from .skel import Sym
+    from .poly import Poly
+
+    def exact_sk(ab=None):
+        sk = SK(m, ab or dict(STD_ABSTRACTED))
+        sk.exact = True
+        return sk
+
+    def cmp_list(got, want, what):
+        if not isinstance(got, list) or len(got) != len(want):
+            return '%s has %r entries, expected %d' % (what, len(got) if isinstance(got, list) else got, len(want))
+        for i, (g, w) in enumerate(zip(got, want)):
+            s = _as_sym(g)
+            if s is None or not s.same(w if isinstance(w, Sym) else Sym(w)):
+                return '%s[%d] is %s, expected %r' % (what, i, repr(g)[:140], w)
+        return None
+
+    def guard(key, fi, fn, okmsg, rule='FIT3.parameters-and-knots-exact'):
+        try:
+            why = fn()
+        except Violation as v:
+            why = '%s %s' % (v.msg, v.where())
+        except Unsupported as ex:
+            raise AnalysisError('%s: interpreter met an unsupported construct: %s' % (key, ex))
+        run.ob(rule, key, why is None, okmsg if why is None else why, 'geomdl/fitting.py:%d in %s' % (fi.node.lineno, fi.key))
+    # ---- compute_knot_vector
+    fk = m.func('fitting.compute_knot_vector')
+
+    def kv1():
+        for p in (1, 2, 3):
+            for n in range(p + 1, p + 5):
+                u = [Poly.atom('u%d' % i) for i in range(n)]
+                out = exact_sk().call(fk, [p, n, [Sym(x) for x in u]], {})
+                want = [Poly()] * (p + 1)
+                for j in range(1, n - p):
+                    acc = Poly()
+                    for i in range(j, j + p):
+                        acc = acc + u[i]
+                    want.append(acc * Fraction(1, p))
+                want += [Poly.const(1)] * (p + 1)
+                w = cmp_list(out, want, 'degree %d, %d points: knot vector' % (p, n))
+                if w:
+                    return w + ' (Eq. 9.8: internal knot j is the mean of the parameters u_j .. u_{j+p-1}, j = 1 .. n-p)'
+        return None
+    guard('fitting.compute_knot_vector :: degree 1..3 x 4 sizes', fk, kv1, 'Eq. 9.8 as a polynomial identity in the parameters')
+    # ---- compute_knot_vector2
+    fk2 = m.func('fitting.compute_knot_vector2')
+
+    def kv2():
+        for p in (1, 2, 3):
+            for ncp in range(p + 1, p + 4):
+                for ndp in range(ncp + 1, ncp + 5):
+                    u = [Poly.atom('u%d' % i) for i in range(ndp)]
+                    out = exact_sk().call(fk2, [p, ndp, ncp, [Sym(x) for x in u]], {})
+                    d = Fraction(ndp, ncp - p)
+                    want = [Poly()] * (p + 1)
+                    for j in range(1, ncp - p):
+                        i = int(j * d)
+                        al = j * d - i
+                        want.append(u[i - 1] * (1 - al) + u[i] * al)
+                    want += [Poly.const(1)] * (p + 1)
+                    w = cmp_list(out, want, 'degree %d, %d data points, %d control points: knot vector' % (p, ndp, ncp))
+                    if w:
+                        return w + ' (Eqs. 9.68 / 9.69)'
+        return None
+    guard('fitting.compute_knot_vector2 :: degree 1..3 x 3 x 4 sizes', fk2, kv2, 'Eqs. 9.68 / 9.69 as a polynomial identity in the parameters')
+    # ---- compute_params_curve
+    fp = m.func('fitting.compute_params_curve')
+
+    def prm():
+        for n in (2, 3, 5):
+            for cen in (False, True):
+                P = pts(n, 3, labelled=True)
+                idx = {id(p_): i for i, p_ in enumerate(P)}
+
+                def dist(sk, node, a, b):
+                    i, j = idx.get(id(a)), idx.get(id(b))
+                    if i is None or j is None or abs(i - j) != 1:
+                        raise Violation('FIT3', 'point_distance is asked about points %r and %r: chords join consecutive data points' % (i, j), node)
+                    return Sym('d%d' % max(i, j))
+                ab = dict(STD_ABSTRACTED)
+                ab[('linalg', 'point_distance')] = Py(dist, 'point_distance')
+                out = exact_sk(ab).call(fp, [P, cen], {})
+                atom = (lambda i: Poly.atom('sqrt(d%d)' % i)) if cen else (lambda i: Poly.atom('d%d' % i))
+                total = Poly()
+                for i in range(1, n):
+                    total = total + atom(i)
+                want = []
+                acc = Poly()
+                for i in range(n):
+                    if i > 0:
+                        acc = acc + atom(i)
+                    want.append(Sym(acc, total))
+                w = cmp_list(out, want, '%d points%s: parameters' % (n, ', centripetal' if cen else ''))
+                if w:
+                    return w + (' (Eq. 9.6: cumulated square roots of the chord lengths over their sum)' if cen else ' (Eq. 9.5: cumulated chord lengths over their sum)')
+        return None
+    guard('fitting.compute_params_curve :: 2, 3, 5 points x chord length / centripetal', fp, prm, 'Eqs. 9.5 / 9.6 as an identity of rational functions in the chord lengths')
+    # ---- compute_params_surface
+    fps = m.func('fitting.compute_params_surface')
+
+    def prms():
+        for su, sv in ((3, 4), (4, 2)):
+            for cen in (False, True):
+                P = pts(su * sv, 3, labelled=True)
+                calls = []
+
+                def cpc(sk, node, line, *a, **k):
+                    c = k.get('centripetal', a[0] if a else False)
+                    labs_ = tuple(next(iter(footprint(p_))) if footprint(p_) and len(footprint(p_)) == 1 else None for p_ in line)
+                    calls.append((labs_, c))
+                    return [Sym('t_%s_%d' % ('_'.join(map(str, labs_)), i)) for i in range(len(line))]
+                ab = dict(STD_ABSTRACTED)
+                ab[('fitting', 'compute_params_curve')] = Py(cpc, 'compute_params_curve')
+                out = exact_sk(ab).call(fps, [P, su, sv, cen], {})
+                if any(c is not cen for _, c in calls):
+                    bad = next(l for l, c in calls if c is not cen)
+                    return 'centripetal=%r is not forwarded to compute_params_curve for the line of points %s: the two directions are parametrised by different methods' % (cen, list(bad))
+                rows = [tuple(v + sv * u for u in range(su)) for v in range(sv)]         # lines along u, one per v
+                cols = [tuple(v + sv * u for v in range(sv)) for u in range(su)]         # lines along v, one per u
+                if sorted(l for l, _ in calls) != sorted(rows + cols):
+                    return 'compute_params_curve is called for the lines %s; expected the %d lines along u and the %d lines along v of the v + size_v * u layout' % (
+                        [list(l) for l, _ in calls][:3], sv, su)
+                if not isinstance(out, (tuple, list)) or len(out) != 2:
+                    return 'does not return (uk, vl)'
+                wu = []
+                for u in range(su):
+                    acc = Poly()
+                    for r in rows:
+                        acc = acc + Poly.atom('t_%s_%d' % ('_'.join(map(str, r)), u))
+                    wu.append(acc * Fraction(1, sv))
+                wv = []
+                for v in range(sv):
+                    acc = Poly()
+                    for c in cols:
+                        acc = acc + Poly.atom('t_%s_%d' % ('_'.join(map(str, c)), v))
+                    wv.append(acc * Fraction(1, su))
+                w = cmp_list(list(out[0]), wu, '%d x %d points: uk' % (su, sv)) or cmp_list(list(out[1]), wv, '%d x %d points: vl' % (su, sv))
+                if w:
+                    return w + ' (parameter k of a direction is the mean over the lines of that direction)'
+        return None
+    guard('fitting.compute_params_surface :: 3 x 4 and 4 x 2 points x chord length / centripetal', fps, prms, 'per-direction means of the per-line parameters, flag forwarded to every line')
+
+
+def is2(m, run):
+    """IS2: fitting.interpolate_surface interpreted on a labelled su x sv data grid with its helpers replaced by recorders: the first pass
+    solves one system per v index over the data points (u, v), u = 0 .. su-1, built from the u degree / knots / parameters; the second
+    pass one system per u index over the first-pass results of that u for v = 0 .. sv-1, built from the v data; the control point at
+    v + sv * u of the result is row v of the second-pass solution for u; degrees, sizes and knot vectors go to their own direction"""
+    fi = m.func('fitting.interpolate_surface')
+    bad = []
+    cases = [((4, 3), (2, 1)), ((3, 5), (1, 2))]
+    for (su, sv), (pu, pv) in cases:
+        def L(*lab):
+            return Tok('DEF', dep=frozenset([lab]))
+        P = [[L('Q', i // sv, i % sv, c) for c in range(3)] for i in range(su * sv)]
+        uk, vl = [L('uk', i) for i in range(su)], [L('vl', j) for j in range(sv)]
+        kvs, builds, solves, made = {}, [], [], []
+
+        def lab(pt):
+            f = footprint(pt) if isinstance(pt, (list, tuple)) else None
+            if not f:
+                return None
+            heads = {x[:-1] for x in f}
+            return next(iter(heads)) if len(heads) == 1 else None
+
+        def cps(sk, node, points, a, b, *r, **k):
+            if points is not P or (a, b) != (su, sv):
+                raise Violation('IS2', 'compute_params_surface is called with sizes (%r, %r); the data grid is %d x %d' % (a, b, su, sv), node)
+            return uk, vl
+
+        def ckv(sk, node, degree, n, params):
+            kv = [L('kv', len(kvs), i) for i in range(n + degree + 1)]
+            kvs[id(kv)] = (degree, n, 'uk' if params is uk else ('vl' if params is vl else '?'))
+            made.append(kv)
+            return kv
+
+        def bcm(sk, node, degree, kv, params, pts_):
+            builds.append((degree, kvs.get(id(kv)), 'uk' if params is uk else ('vl' if params is vl else '?'), [lab(p_) for p_ in pts_]))
+            return ('A', len(builds) - 1)
+
+        def lus(sk, node, A, rhs):
+            k_ = len(solves)
+            solves.append((A, [lab(p_) for p_ in rhs]))
+            return [[L('X', k_, i, c) for c in range(3)] for i in range(len(rhs))]
+        ab = dict(STD_ABSTRACTED)
+        ab[('fitting', 'compute_params_surface')] = Py(cps, 'compute_params_surface')
+        ab[('fitting', 'compute_knot_vector')] = Py(ckv, 'compute_knot_vector')
+        ab[('fitting', '_build_coeff_matrix')] = Py(bcm, '_build_coeff_matrix')
+        ab[('linalg', 'lu_solve')] = Py(lus, 'lu_solve')
+        shapes = []
+        ab[('class', ('BSpline', 'Surface'))] = lambda sk, node, *a, **k: rec_shape(('BSpline', 'Surface'), shapes, {}, dict(k), 'constructed')
+        sk = SK(m, ab)
+        why = None
+        try:
+            out = sk.call(fi, [P, su, sv, pu, pv], {})
+            if len(solves) != su + sv:
+                why = '%d linear systems are solved, %d (one per v index) + %d (one per u index) are needed' % (len(solves), sv, su)
+            else:
+                for v in range(sv):
+                    A, rhs = solves[v]
+                    b = builds[A[1]] if isinstance(A, tuple) and A[0] == 'A' else None
+                    want = [('Q', u, v) for u in range(su)]
+                    if rhs != want:
+                        why = 'first pass, system %d: the right-hand side is %s, expected the data points (u, %d) for u = 0 .. %d' % (v, rhs[:4], v, su - 1)
+                    elif b is None or b[0] != pu or b[1] != (pu, su, 'uk') or b[2] != 'uk' or b[3] != want:
+                        why = 'first pass, system %d: the coefficient matrix is built from degree %r, knots of %r, parameters %r; the u direction has degree %d, %d points and the parameters uk' % (
+                            v, b and b[0], b and b[1], b and b[2], pu, su)
+                    if why:
+                        break
+                for u in range(su):
+                    if why:
+                        break
+                    A, rhs = solves[sv + u]
+                    b = builds[A[1]] if isinstance(A, tuple) and A[0] == 'A' else None
+                    want = [('X', v, u) for v in range(sv)]
+                    if rhs != want:
+                        why = 'second pass, system %d: the right-hand side is %s; expected row %d of every first-pass solution (v = 0 .. %d), i.e. the intermediate points at u + size_u * v' % (
+                            u, rhs[:4], u, sv - 1)
+                    elif b is None or b[0] != pv or b[1] != (pv, sv, 'vl') or b[2] != 'vl' or b[3] != want:
+                        why = 'second pass, system %d: the coefficient matrix is built from degree %r, knots of %r, parameters %r; the v direction has degree %d, %d points and the parameters vl' % (
+                            u, b and b[0], b and b[1], b and b[2], pv, sv)
+            if why is None:
+                if not isinstance(out, Bag):
+                    why = 'does not return a surface'
+                else:
+                    a_ = out._a
+                    cp = a_.get('ctrlpts')
+                    got = [lab(p_) for p_ in cp] if isinstance(cp, list) else None
+                    want = [('X', sv + u, v) for u in range(su) for v in range(sv)]
+                    if got != want:
+                        why = 'the control points of the result are %s ...; expected row v of the second-pass solution for u at position v + size_v * u' % (got[:4] if got else got,)
+                    elif (a_.get('degree_u'), a_.get('degree_v'), a_.get('ctrlpts_size_u'), a_.get('ctrlpts_size_v')) != (pu, pv, su, sv):
+                        why = 'the result gets degrees / sizes (%r, %r) / (%r, %r), expected (%d, %d) / (%d, %d)' % (a_.get('degree_u'), a_.get('degree_v'), a_.get('ctrlpts_size_u'),
+                                                                                                            a_.get('ctrlpts_size_v'), pu, pv, su, sv)
+                    elif kvs.get(id(a_.get('knotvector_u'))) != (pu, su, 'uk') or kvs.get(id(a_.get('knotvector_v'))) != (pv, sv, 'vl'):
+                        why = 'the knot vectors of the result are built from %r / %r; expected (degree_u, size_u, uk) / (degree_v, size_v, vl)' % (
+                            kvs.get(id(a_.get('knotvector_u'))), kvs.get(id(a_.get('knotvector_v'))))
+        except Violation as v:
+            why = '%s %s' % (v.msg, v.where())
+        except Unsupported as ex:
+            raise AnalysisError('%s: interpreter met an unsupported construct: %s' % (fi.key, ex))
+        if why:
+            bad.append((((su, sv), (pu, pv)), why))
+    run.ob('IS2.two-pass-interpolation-on-labelled-grid', '%s :: %d non-square grids' % (fi.key, len(cases)), not bad,
+           'per-v systems over u, then per-u systems over the intermediate points; result laid out at v + size_v * u' if not bad else
+           'grid %s, degrees %s: %s   [%d of %d cases]' % (bad[0][0][0], bad[0][0][1], bad[0][1], len(bad), len(cases)), 'geomdl/fitting.py:%d in %s' % (fi.node.lineno, fi.key))
